@@ -332,17 +332,34 @@ def check(ctx):
             return True
         return False
     if au is not None:
-        pre = [s for s in au.node.body if isinstance(s, ast.Expr) and isinstance(s.value, ast.Call) and call_attr(s.value) == "prepend"]
-        env = {"in_list": [Lit("x1"), Lit("x2")]}
-        val = None
-        for s in au.node.body:
-            if isinstance(s, ast.Assign) and isinstance(s.targets[0], ast.Name):
-                env[s.targets[0].id] = te.eval(s.value, env, au)
-        if pre:
-            val = te.eval(pre[0].value.args[0], env, au)
-        ok = isinstance(val, CNFV) and sorted(repr(c) for c in val.clauses) == ["(x1)", "(~x1)"]
-        ctx.check(ok, R, au, "contradiction %r" % (val,), "_assert_unsatisfiable emits {v}, {~v} over an input variable: no model, no new variable",
-                  "_assert_unsatisfiable emits %r, which is not a contradiction over the inputs" % (val,))
+        def run_au(stmts, env, out):
+            """tiny interpreter of the helper's body: assignments, `if <list>:` on the list's emptiness, prepend(...)"""
+            for s in stmts:
+                if isinstance(s, ast.Expr) and isinstance(s.value, ast.Constant):
+                    continue
+                if isinstance(s, ast.Assign) and isinstance(s.targets[0], ast.Name):
+                    if isinstance(s.value, ast.Call) and ast.unparse(s.value) == "self.get_fresh()":
+                        env[s.targets[0].id] = Lit("fresh")
+                    else:
+                        env[s.targets[0].id] = te.eval(s.value, env, au)
+                elif isinstance(s, ast.If):
+                    t = s.test
+                    neg = isinstance(t, ast.UnaryOp) and isinstance(t.op, ast.Not)
+                    nm = t.operand if neg else t
+                    ctx.require(isinstance(nm, ast.Name) and isinstance(env.get(nm.id), list), "_assert_unsatisfiable: branch condition outside the fragment: %s" % ast.unparse(t))
+                    c = bool(env[nm.id]) != neg
+                    run_au(s.body if c else s.orelse, env, out)
+                elif isinstance(s, ast.Expr) and isinstance(s.value, ast.Call) and call_attr(s.value) == "prepend":
+                    out.append(te.eval(s.value.args[0], env, au))
+                else:
+                    ctx.require(False, "_assert_unsatisfiable: statement outside the fragment: %s" % ast.unparse(s)[:60])
+        for name_, inputs, want_ in (("over an input variable", [Lit("x1"), Lit("x2")], ["(x1)", "(~x1)"]), ("over a fresh variable when there is no input", [], ["(fresh)", "(~fresh)"])):
+            out_ = []
+            run_au(au.node.body, {"in_list": list(inputs)}, out_)
+            val = out_[0] if len(out_) == 1 else None
+            ok = isinstance(val, CNFV) and sorted(repr(c) for c in val.clauses) == want_
+            ctx.check(ok, R, au, "contradiction %s: %r" % (name_, val), "_assert_unsatisfiable emits {v}, {~v} %s: no model" % name_,
+                      "_assert_unsatisfiable emits %r, which is not a contradiction (%s)" % (val, name_))
     if lossy:
         g = CFG(eq.node)
         guards = [s for s in eq.node.body if isinstance(s, ast.If) and Facts(eq).at(s, s.test) is not None and
